@@ -43,7 +43,8 @@ class C06(BaseCheck):
              'scales.loadbalancer.aperture:ApertureBalancerSink._OnNodeDown')
   REQUIRED_ANCHORS = ANCHORS
   REQUIRED_CLASSES = ('phase:in-band', 'phase:pinned-max', 'phase:pinned-min', 'phase:pinned-members',
-                      'expansion', 'contraction', 'jitter-round', 'member-down', 'leave-active')
+                      'expansion', 'contraction', 'jitter-round', 'member-down', 'leave-active',
+                      'leave-during-jitter-round')
   ASSUMPTIONS = ('smoothed load = harness reference EMA with the balancer\'s documented 5 s window and the '
                  'same sampling points (cross-checked against the published load_average gauge); phases whose '
                  'per-member load is within 1e-6 of a band edge for a relevant size are skipped and counted',
@@ -89,7 +90,7 @@ class C06(BaseCheck):
       if open_mode == 'sync':
         return 0.0, True
       if open_mode == 'delayed':
-        return rng.choice([0.001, 0.05, 0.4]), True
+        return rng.choice([0.001, 0.05, 0.4, 1.5]), True
       return rng.choice([0.0, 0.02]), rng.random() > 0.2
     w = make_world(env, rng, 'aperture', params, open_delay)
     lb, ss = w.lb, w.ss
@@ -134,6 +135,7 @@ class C06(BaseCheck):
       return len(lb._heap) - 1, len(lb._idle_endpoints)
 
     jitter_seen = [0]
+    in_race = [False]
 
     def jitter_active_since(mark):
       n = sum(1 for e in env.events[mark:] if e['kind'].startswith('lb.jitter'))
@@ -183,6 +185,19 @@ class C06(BaseCheck):
       fn()
       env.settle()
       safety(pre, ev_mark, log_mark, left_active, joined)
+      if jitter and lb._pending_endpoints and not in_race[0] and rng.random() < 0.35:
+        # a membership change lands while a jitter round is still waiting for its new member to open
+        in_race[0] = True
+        try:
+          act = [n.endpoint for n in lb._heap[1:] if n.endpoint not in lb._pending_endpoints]
+          if act and rng.random() < 0.7:
+            ep_ = rng.choice(sorted(act, key=str))
+            classes.add('leave-during-jitter-round')
+            op(lambda: ss.leave(ep_), left_active=True)
+          else:
+            op(lambda: ss.join(rng.choice(pool)), joined=True)
+        finally:
+          in_race[0] = False
 
     # ---------------------------------------------------------------- open
     open_ar = w.top.Open()
